@@ -278,6 +278,11 @@ def cart_copies(ctx, sources):
                 continue
             if how == '.p8.png':
                 want = want.replace(b'\r', b' ')        # (the .p8.png reader turns CR into a blank: the normalisation C04 allows)
+                # ... and may supply a final newline; it never takes one away
+                s0 = src.replace(b'\r', b' ')
+                if got not in (s0, s0 + b'\n'):
+                    batch.append((name + '/' + how, s0, how, got))
+                    continue
             if got.rstrip(b'\n') == want.rstrip(b'\n'):
                 ctx.nontrivial += 1
                 ctx.traces += 1
@@ -307,7 +312,7 @@ def run(ctx):
     cli_writep8(ctx, open(os.path.join(core.VERIF, 'fixtures', 'lua', 'every_node.lua'), 'rb').read())
     ctrl = [('ctrl%d' % b, b'x=1 -- ' + bytes([b]) + b' glyph on an ascii line\ns="' + bytes([b]) + b'"\n') for b in list(range(16, 32)) + [127, 1, 9, 128, 255]]
     ws = [('trailing-ws', b'local m={}  \nm.x=1\t\nreturn m  '), ('trailing-ws-nl', b'local m={}\nreturn m \t\n'), ('trailing-cr', b'local m={}\r\nreturn m\r\n'),
-          ('blank-tail', b'm=1\n\n\n'), ('indent', b'  m=1\n\tn=2\n')]
+          ('blank-tail', b'm=1\n\n\n'), ('indent', b'  m=1\n\tn=2\n'), ('update60', b'function _update60() end\n'), ('update60-nonl', b'function _update60() t=1 end')]
     cart_copies(ctx, ctrl + ws + [(n, s_) for n, s_ in srcs if len(s_) < 5000] + gen[:(30 if ctx.quick else 300)])
     # canaries: a dropped byte outside a literal, a changed byte inside one
     base = b'x="a\\65b" -- c\ny=2\n'
